@@ -2047,6 +2047,82 @@ Section L007b.
   Lemma l007_line_idem : forall l, l007_line is_letter is_digit upper_ascii keywords (l007_line is_letter is_digit upper_ascii keywords l)
                                   = l007_line is_letter is_digit upper_ascii keywords l.
   Proof. intro l. unfold l007_line. apply (l007_scan_idem_n (length l) l (le_n _)). Qed.
+  (* ---- re-lint: the words of a fixed line are not violations ---- *)
+  Notation words := (l007_words is_letter is_digit).
+  Notation word_viol := (word_viol upper_ascii keywords).
+
+  Lemma W_other : forall i p t, wordc false p = false -> words i None (p :: t) = words (i + width (fst p)) None t.
+  Proof. intros i p t H. cbn [l007_words]. rewrite H. reflexivity. Qed.
+
+  Lemma W_absorb : forall t i s w, exists i',
+    words i (Some (s, w)) t = words i' (Some (s, rev (chars (take_l wcp t)) ++ w)) (trim_l wcp t).
+  Proof.
+    induction t as [|p t IH]; intros i s w; [exists i; reflexivity|]. cbn [take_l trim_l]. destruct (wcp p) eqn:E.
+    - cbn [l007_words]. rewrite E. destruct (IH (i + width (fst p))%nat s (fst p :: w)) as (i' & Ei). exists i'. rewrite Ei.
+      cbn [chars map rev]. rewrite <- app_assoc. reflexivity.
+    - exists i. reflexivity.
+  Qed.
+
+  Lemma W_boundary : forall i s w r, stops r -> words i (Some (s, w)) r = (S s, rev w) :: words i None r.
+  Proof.
+    intros i s w r [H|(d & r' & H & Hd)]; subst; [reflexivity|].
+    cbn [l007_words]. rewrite Hd. rewrite (wordc_cont_not d Hd). reflexivity.
+  Qed.
+
+  Lemma W_word_app : forall i p v x, wordc false p = true -> forallb wcp v = true -> stops x ->
+    exists i', words i None (p :: v ++ x) = (S i, chars (p :: v)) :: words i' None x.
+  Proof.
+    intros i p v x H Hv Hx. cbn [l007_words]. rewrite H.
+    destruct (W_absorb (v ++ x) (i + width (fst p))%nat i [fst p]) as (i' & Ei). rewrite Ei.
+    assert (E1 : take_l wcp (v ++ x) = v).
+    { rewrite take_l_app_all by exact Hv. destruct Hx as [Hx|(d & r & Hx & Hd)]; subst; [rewrite app_nil_r; reflexivity|].
+      rewrite take_l_stop by exact Hd. rewrite app_nil_r. reflexivity. }
+    assert (E2 : trim_l wcp (v ++ x) = x).
+    { rewrite trim_l_app_all by exact Hv. destruct Hx as [Hx|(d & r & Hx & Hd)]; subst; [reflexivity|]. apply trim_l_stop. exact Hd. }
+    rewrite E1, E2. exists i'. rewrite W_boundary by exact Hx. rewrite rev_app_distr. rewrite rev_involutive. reflexivity.
+  Qed.
+
+  Lemma list_eqb_refl : forall u, list_eqb u u = true.
+  Proof.
+    intro u. unfold list_eqb. rewrite Nat.eqb_refl. cbn [andb]. induction u as [|b u IH]; [reflexivity|].
+    cbn [combine forallb fst snd]. rewrite N.eqb_refl. exact IH.
+  Qed.
+
+  Lemma encode_asc : forall u, encode (map asc u) = u.
+  Proof. induction u as [|b u IH]; [reflexivity|]. cbn. f_equal. exact IH. Qed.
+
+  Lemma conv_noviol : forall w, word_viol (chars (conv_word w)) = false.
+  Proof.
+    intro w. assert (E0 : conv_word w = match kw_of (chars w) with Some u => upairs u | None => w end) by reflexivity.
+    rewrite E0. destruct (kw_of (chars w)) as [u|] eqn:E.
+    - rewrite chars_upairs. unfold Lint.word_viol. rewrite (kw_of_conv _ u E). rewrite encode_asc. rewrite list_eqb_refl. reflexivity.
+    - unfold Lint.word_viol. rewrite E. reflexivity.
+  Qed.
+
+  Lemma l007_words_fixed_n : forall n l i, (length l <= n)%nat ->
+    Forall (fun cw : nat * list ch => word_viol (snd cw) = false) (words i None (sN l)).
+  Proof.
+    induction n as [|n IH]; intros l i Hl.
+    - destruct l; [constructor|cbn in Hl; lia].
+    - destruct l as [|p t]; [constructor|]. cbn [length] in Hl.
+      destruct (wordc false p) eqn:Ew.
+      + rewrite sN_word by exact Ew. pose proof (take_l_all wcp t) as Hv.
+        destruct (conv_shape p (take_l wcp t) Ew Hv) as (p' & v' & Ec & W' & V').
+        pose proof (conv_noviol (p :: take_l wcp t)) as Nv.
+        rewrite Ec in *. change ((p' :: v') ++ sN (trim_l wcp t)) with (p' :: v' ++ sN (trim_l wcp t)).
+        destruct (W_word_app i p' v' (sN (trim_l wcp t)) W' V' (sN_stops _ (trim_l_stops t))) as (i' & Ei). rewrite Ei.
+        constructor; [exact Nv|]. apply IH.
+        pose proof (take_trim_l wcp t) as E. apply (f_equal (@length cc)) in E. rewrite app_length in E. lia.
+      + rewrite sN_other by exact Ew. rewrite W_other by exact Ew. apply IH. lia.
+  Qed.
+
+  Lemma l007_line_clears : forall n fl,
+    l007_check_line is_letter is_digit upper_ascii keywords n (on_snd (l007_line is_letter is_digit upper_ascii keywords) fl) = [].
+  Proof.
+    intros n [flag l]. unfold l007_check_line, on_snd, l007_line. cbn [snd].
+    pose proof (l007_words_fixed_n (length l) l 0%nat (le_n _)) as H. induction H as [|cw r Hc Hr IH]; [reflexivity|].
+    cbn [flat_map]. rewrite Hc. exact IH.
+  Qed.
 End L007b.
 
 Section L007Text.
@@ -2064,6 +2140,13 @@ Section L007Text.
     intro t. apply (per_cline_idem (l007_line is_letter is_digit upper_ascii keywords)).
     - apply (l007_lock is_letter is_digit upper_ascii keywords up_plain).
     - apply (l007_line_idem is_letter is_digit upper_ascii keywords up_letter up_idem).
+  Qed.
+  Theorem l007_fix_clears : forall t,
+    l007_check is_letter is_digit upper_ascii keywords (l007_fix is_letter is_digit upper_ascii keywords t) = [].
+  Proof.
+    intro t. unfold l007_check, l007_fix. rewrite (relex _ t (l007_lock is_letter is_digit upper_ascii keywords up_plain)).
+    apply on_clines_nil. intros n fl Hfl. apply in_map_iff in Hfl. destruct Hfl as (fl0 & E & _). subst.
+    apply (l007_line_clears is_letter is_digit upper_ascii keywords up_letter up_idem).
   Qed.
 End L007Text.
 
@@ -2683,3 +2766,220 @@ Section CliIdem.
     unfold cli_fix at 1. rewrite E1, E2, E3, E10, E7. reflexivity.
   Qed.
 End CliIdem.
+
+(* ------------------------------------------------------------------------------------------------ *)
+(* well-formed characters: what [decode] produces *)
+Lemma wfc_asc : forall b, wfc (asc b).
+Proof.
+  intro b. unfold wfc, asc. cbn [raw cp valid]. split; [discriminate|]. split; [|split].
+  - intros x [Hx|[]] _. subst. split; reflexivity.
+  - intros _. reflexivity.
+  - intros _. reflexivity.
+Qed.
+
+Lemma wfc_high : forall p r v, r <> [] -> (forall b, In b r -> 128 <= b) -> 128 <= p -> wfc (mkch p r v).
+Proof.
+  intros p r v Hr Hb Hp. unfold wfc. cbn [raw cp valid]. split; [exact Hr|]. split; [|split].
+  - intros b Hin Hlt. specialize (Hb b Hin). lia.
+  - intro Hlt. lia.
+  - intro Hlt. lia.
+Qed.
+
+Lemma between_spec : forall lo x hi, between lo x hi = true -> lo <= x /\ x <= hi.
+Proof. intros lo x hi H. unfold between in H. apply andb_prop in H. destruct H as [H1 H2]. apply N.leb_le in H1. apply N.leb_le in H2. split; assumption. Qed.
+Lemma cont_spec : forall b, cont b = true -> 128 <= b /\ b <= 191.
+Proof. intros b H. unfold cont in H. apply andb_prop in H. destruct H as [H1 H2]. apply N.leb_le in H1. apply N.leb_le in H2. split; assumption. Qed.
+
+Lemma dec1_wf : forall b0 t, wfc (dec1 (b0 :: t)).
+Proof.
+  intros b0 t. cbn [dec1].
+  destruct (b0 <? 128) eqn:E0; [apply wfc_asc|]. apply N.ltb_ge in E0.
+  assert (Hbad : wfc (badc b0)).
+  { apply wfc_high; [discriminate| |lia]. intros b [Hb|[]]. subst. exact E0. }
+  destruct (between 194 b0 223) eqn:E1.
+  { apply between_spec in E1. destruct t as [|b1 t]; [exact Hbad|]. destruct (cont b1) eqn:C1; [|exact Hbad].
+    apply cont_spec in C1. apply wfc_high; [discriminate| |lia].
+    intros b [Hb|[Hb|[]]]; subst; lia. }
+  destruct (between 224 b0 239) eqn:E2.
+  { apply between_spec in E2. destruct t as [|b1 [|b2 t]]; try exact Hbad.
+    destruct (between (if b0 =? 224 then 160 else 128) b1 (if b0 =? 237 then 159 else 191) && cont b2) eqn:C; [|exact Hbad].
+    apply andb_prop in C. destruct C as [C1 C2]. apply between_spec in C1. apply cont_spec in C2.
+    apply wfc_high; [discriminate| |].
+    - intros b [Hb|[Hb|[Hb|[]]]]; subst; try lia. destruct (b0 =? 224); lia.
+    - destruct (b0 =? 224) eqn:Eb; [apply N.eqb_eq in Eb; subst; lia|apply N.eqb_neq in Eb; lia]. }
+  destruct (between 240 b0 244) eqn:E3.
+  { apply between_spec in E3. destruct t as [|b1 [|b2 [|b3 t]]]; try exact Hbad.
+    destruct (between (if b0 =? 240 then 144 else 128) b1 (if b0 =? 244 then 143 else 191) && cont b2 && cont b3) eqn:C; [|exact Hbad].
+    apply andb_prop in C. destruct C as [C C3]. apply andb_prop in C. destruct C as [C1 C2].
+    apply between_spec in C1. apply cont_spec in C2. apply cont_spec in C3.
+    apply wfc_high; [discriminate| |].
+    - intros b [Hb|[Hb|[Hb|[Hb|[]]]]]; subst; try lia. destruct (b0 =? 240); lia.
+    - destruct (b0 =? 240) eqn:Eb; [apply N.eqb_eq in Eb; subst; lia|apply N.eqb_neq in Eb; lia]. }
+  exact Hbad.
+Qed.
+
+Lemma decode_go_wf : forall s skip, wft (decode_go skip s).
+Proof.
+  induction s as [|b t IH]; intros skip c Hc; [destruct Hc|].
+  cbn [decode_go] in Hc. destruct skip as [|k].
+  - destruct Hc as [Hc|Hc]; [subst; apply dec1_wf|eapply IH; exact Hc].
+  - eapply IH; exact Hc.
+Qed.
+
+Theorem decode_wf : forall s, wft (decode s).
+Proof. intro s. apply decode_go_wf. Qed.
+
+(* ------------------------------------------------------------------------------------------------ *)
+(* L010: re-lint after fix *)
+
+Fixpoint run_after (run : nat) (l : list ch) : nat :=
+  match l with [] => run | c :: t => if is_sp c then run_after (S run) t else run_after 0 t end.
+
+Lemma sp_runs_snoc : forall a c off run rs,
+  (is_sp c = true -> run_after run a = 0%nat) -> sp_runs off run rs (a ++ [c]) = sp_runs off run rs a.
+Proof.
+  induction a as [|d a IH]; intros c off run rs H.
+  - cbn [app sp_runs run_after] in *. destruct (is_sp c) eqn:E.
+    + rewrite (H eq_refl). cbn [Nat.leb Nat.eqb sp_runs]. reflexivity.
+    + cbn [sp_runs Nat.leb]. rewrite app_nil_r. reflexivity.
+  - cbn [app sp_runs run_after] in *. destruct (is_sp d).
+    + apply IH. exact H.
+    + f_equal. apply IH. exact H.
+Qed.
+
+Definition tailsp (cur : list ch) : bool := match cur with c :: _ => is_sp c | [] => false end.
+
+Lemma run_after_snoc : forall a c run, run_after run (a ++ [c]) = if is_sp c then S (run_after run a) else 0%nat.
+Proof. induction a as [|d a IH]; intros c run; cbn [app run_after]; [reflexivity|]. destruct (is_sp d); apply IH. Qed.
+
+Lemma run_after_rev : forall cur, tailsp cur = false -> run_after 0 (rev cur) = 0%nat.
+Proof.
+  intros [|c cur] H; [reflexivity|]. cbn [rev]. rewrite run_after_snoc. cbn [tailsp] in H. rewrite H. reflexivity.
+Qed.
+
+(* a run of two or more spaces lies inside the text *)
+Lemma sp_runs_bound : forall a off run rs m, (forall c, In c a -> (1 <= width c)%nat) -> (rs + run <= off)%nat ->
+  In m (sp_runs off run rs a) -> (m + 2 <= off + blen a)%nat.
+Proof.
+  induction a as [|c t IH]; intros off run rs m Hw Hinv H.
+  - cbn [sp_runs] in H. destruct (2 <=? run)%nat eqn:E; [|destruct H]. destruct H as [H|[]]. subst. apply Nat.leb_le in E. cbn [blen fold_right]. lia.
+  - rewrite blen_cons. assert (W : (1 <= width c)%nat) by (apply Hw; left; reflexivity).
+    assert (Ht : forall d, In d t -> (1 <= width d)%nat) by (intros d Hd; apply Hw; right; exact Hd).
+    cbn [sp_runs] in H. destruct (is_sp c).
+    + assert (G := IH (off + width c)%nat (S run) (if (run =? 0)%nat then off else rs) m Ht).
+      assert (G' : (m + 2 <= off + width c + blen t)%nat) by (apply G; [destruct (run =? 0)%nat eqn:E; [apply Nat.eqb_eq in E; lia|apply Nat.eqb_neq in E; lia]|exact H]). lia.
+    + apply in_app_or in H. destruct H as [H|H].
+      * destruct (2 <=? run)%nat eqn:E; [|destruct H]. destruct H as [H|[]]. subst. apply Nat.leb_le in E. lia.
+      * assert (G := IH (off + width c)%nat 0%nat rs m Ht). assert (G' : (m + 2 <= off + width c + blen t)%nat) by (apply G; [lia|exact H]). lia.
+Qed.
+
+Definition bb (b : N) : bool := (b =? 32) || (b =? 9).
+Definition okpart (L : list ch) (p : nat * list ch) : Prop :=
+  forall m, In m (sp_runs 0 0 0 (snd p)) -> forallb bb (firstn (S (fst p + m)) (encode L)) = true.
+
+Lemma check_line_nil : forall n fl, (forall p, In p (l010_parts 0 0 [] (snd fl)) -> okpart (chars (snd fl)) p) -> l010_check_line n fl = [].
+Proof.
+  intros n fl H. unfold l010_check_line. cbv zeta. induction (l010_parts 0 0 [] (snd fl)) as [|p ps IH]; [reflexivity|].
+  cbn [flat_map]. rewrite IH by (intros q Hq; apply H; right; exact Hq). rewrite app_nil_r.
+  assert (Hp := H p (or_introl eq_refl)). unfold okpart in Hp.
+  induction (sp_runs 0 0 0 (snd p)) as [|m ms IHm]; [reflexivity|]. cbn [flat_map].
+  assert (E := Hp m (or_introl eq_refl)). unfold bb in E. rewrite E. cbn [app]. apply IHm. intros m' Hm'. apply Hp. right. exact Hm'.
+Qed.
+
+Lemma parts_ok : forall L x i start cur,
+  ok10 (tailsp cur) x = true -> (cur <> [] -> okpart L (start, rev cur)) ->
+  forall p, In p (l010_parts i start cur x) -> okpart L p.
+Proof.
+  intros L. induction x as [|c t IH]; intros i start cur Hd Hc p Hp.
+  - cbn [l010_parts] in Hp. destruct cur as [|d cur]; [destruct Hp|]. destruct Hp as [Hp|[]]. subst. apply Hc. discriminate.
+  - cbn [l010_parts ok10] in *. cbv zeta in Hp. destruct (code0 c) eqn:Ec.
+    + assert (Ecs : cspace c = is_sp (fst c)) by (unfold cspace; rewrite Ec; apply andb_true_r).
+      rewrite Ecs in Hd.
+      assert (Hd' : ok10 (is_sp (fst c)) t = true /\ (is_sp (fst c) = true -> tailsp cur = false)).
+      { destruct (is_sp (fst c)); [apply andb_prop in Hd; destruct Hd as [H1 H2]; split; [exact H2|intros _; destruct (tailsp cur); [discriminate|reflexivity]]|split; [exact Hd|discriminate]]. }
+      destruct Hd' as [Hd1 Hd2].
+      refine (IH _ _ (fst c :: cur) _ _ p Hp); [cbn [tailsp]; exact Hd1|].
+      intros _. cbn [rev]. destruct cur as [|d cur].
+      * cbn [rev app]. intros m Hm. cbn [snd sp_runs] in Hm. destruct (is_sp (fst c)); cbn in Hm; destruct Hm.
+      * intros m Hm. cbn [snd fst] in *. rewrite sp_runs_snoc in Hm.
+        -- apply (Hc ltac:(discriminate) m). exact Hm.
+        -- intro Hs. apply run_after_rev. apply Hd2. exact Hs.
+    + apply in_app_or in Hp. destruct Hp as [Hp|Hp].
+      * destruct cur as [|d cur]; [destruct Hp|]. destruct Hp as [Hp|[]]. subst. apply Hc. discriminate.
+      * assert (Hn : cspace c = false) by (unfold cspace; rewrite Ec; apply andb_false_r). rewrite Hn in Hd.
+        apply (IH _ _ [] Hd (fun Hx => False_ind _ (Hx eq_refl)) p Hp).
+Qed.
+
+Lemma lblank_code0 : forall p, lblank p = true -> code0 p = true.
+Proof. intros p H. unfold lblank in H. apply andb_prop in H. tauto. Qed.
+
+Lemma parts_lead : forall a x i start cur, forallb lblank a = true ->
+  l010_parts i start cur (a ++ x) =
+  l010_parts (i + blen (chars a)) (match cur, a with [], _ :: _ => i | _, _ => start end) (rev (chars a) ++ cur) x.
+Proof.
+  induction a as [|c a IH]; intros x i start cur H.
+  - cbn [app chars map blen fold_right rev]. rewrite Nat.add_0_r. destruct cur; reflexivity.
+  - cbn in H. apply andb_prop in H. destruct H as [H1 H2]. cbn [app l010_parts]. cbv zeta. rewrite (lblank_code0 c H1).
+    rewrite IH by exact H2. unfold chars. cbn [map]. rewrite blen_cons. cbn [rev]. rewrite <- app_assoc. cbn [app].
+    rewrite Nat.add_assoc. destruct cur; destruct a; reflexivity.
+Qed.
+
+Lemma ok10_head : forall c t ps, cspace c = false -> ok10 ps (c :: t) = ok10 false (c :: t).
+Proof. intros c t ps H. cbn [ok10]. rewrite H. reflexivity. Qed.
+
+(* blank characters of a well-formed text are the single bytes 20 / 09 *)
+Lemma wf_blank : forall c, wfc c -> is_blank c = true -> width c = 1%nat /\ exists b, raw c = [b] /\ bb b = true.
+Proof.
+  intros c (Hne & Hb & Hc & Hv) H.
+  assert (Hlt : cp c < 128) by (unfold is_blank, is_sp, is_tab in H; apply orb_prop in H; destruct H as [H|H]; apply N.eqb_eq in H; lia).
+  unfold width. rewrite (Hc Hlt). split; [reflexivity|]. exists (cp c). split; [reflexivity|]. unfold bb. exact H.
+Qed.
+
+Lemma lead_facts : forall a : list cc, (forall p, In p a -> wfc (fst p)) -> forallb lblank a = true ->
+  blen (chars a) = length (encode (chars a)) /\ forallb bb (encode (chars a)) = true /\ (forall c, In c (chars a) -> (1 <= width c)%nat).
+Proof.
+  induction a as [|c a IH]; intros Hw Hb; [repeat split; intros c []|].
+  cbn in Hb. apply andb_prop in Hb. destruct Hb as [H1 H2].
+  assert (B1 : is_blank (fst c) = true) by (unfold lblank in H1; apply andb_prop in H1; tauto).
+  destruct (wf_blank (fst c) (Hw c (or_introl eq_refl)) B1) as (W2 & b & W3 & W4).
+  destruct (IH (fun d Hd => Hw d (or_intror Hd)) H2) as (I2 & I3 & I4). cbn [chars map]. fold (chars a).
+  split; [rewrite blen_cons; unfold width; unfold encode in *; cbn [flat_map]; rewrite app_length, W3; cbn [length]; rewrite <- I2; reflexivity|].
+  split; [unfold encode in *; cbn [flat_map]; rewrite W3; cbn [app forallb]; rewrite W4, I3; reflexivity|].
+  intros d [Hd|Hd]; [subst; unfold width; rewrite W3; cbn [length]; lia|apply I4; exact Hd].
+Qed.
+
+Lemma stable_line_clears : forall n fl, (forall p, In p (take_l lblank (snd fl)) -> wfc (fst p)) ->
+  l010_line (snd fl) = snd fl -> l010_check_line n fl = [].
+Proof.
+  intros n [flag L] Hw Hst. cbn [snd] in *. apply check_line_nil. cbn [snd]. apply line10_fix_iff in Hst.
+  set (lead := take_l lblank L) in *. set (rest := trim_l lblank L) in *.
+  assert (EL : L = lead ++ rest) by (symmetry; apply take_trim_l).
+  pose proof (take_l_all lblank L) as Hlb. fold lead in Hlb.
+  destruct (lead_facts lead Hw Hlb) as (F2 & F3 & F4).
+  intros p Hp. rewrite EL in Hp at 1. rewrite parts_lead in Hp by exact Hlb. rewrite app_nil_r in Hp.
+  refine (parts_ok (chars L) rest _ _ (rev (chars lead)) _ _ p Hp).
+  - destruct rest as [|c0 r0] eqn:E; [reflexivity|]. pose proof (trim_l_head _ _ _ _ E) as Hc0.
+    rewrite ok10_head; [exact Hst|]. destruct (cspace c0) eqn:X; [rewrite (cspace_lblank c0 X) in Hc0; discriminate|reflexivity].
+  - intros _. rewrite rev_involutive. intros m Hm. cbn [fst snd] in *.
+    assert (Bm : (m + 2 <= 0 + blen (chars lead))%nat) by (apply (sp_runs_bound (chars lead) 0%nat 0%nat 0%nat m F4 (le_n 0) Hm)).
+    replace (match lead with [] => 0%nat | _ :: _ => 0%nat end + m)%nat with m by (destruct lead; lia).
+    assert (Bl : (S m <= length (encode (chars lead)))%nat) by lia.
+    rewrite EL. unfold chars. rewrite map_app. unfold encode. rewrite flat_map_app.
+    rewrite firstn_app_le by exact Bl. apply forallb_firstn. exact F3.
+Qed.
+
+Lemma clines_in_text : forall t fl p, In fl (clines t) -> In p (snd fl) -> In (fst p) t.
+Proof.
+  intros t fl p Hfl Hp. rewrite clines_thread in Hfl.
+  assert (Hl : In (chars (snd fl)) (split_nl t)).
+  { rewrite <- (thread_chars (split_nl t) SCode true). apply in_map_iff. exists fl. split; [reflexivity|exact Hfl]. }
+  eapply split_incl; [exact Hl|]. unfold chars. apply in_map. exact Hp.
+Qed.
+
+Theorem l010_fix_clears : forall t, wft t -> l010_check (l010_fix t) = [].
+Proof.
+  intros t Hw. unfold l010_check, l010_fix. rewrite (relex l010_line t l010_lock). apply on_clines_nil.
+  intros n fl Hfl. apply in_map_iff in Hfl. destruct Hfl as (fl0 & E & H0). subst.
+  apply stable_line_clears; unfold on_snd; cbn [snd]; [|apply l010_line_idem].
+  intros p Hp. rewrite f10_lead in Hp. apply take_l_incl in Hp. apply Hw. eapply clines_in_text; eassumption.
+Qed.
